@@ -98,7 +98,12 @@ func (c *azBlobCache) Get(ctx context.Context, kind cache.EntryKind, hash string
 	rc = resp.NewRetryReader(ctx, &azblob.RetryReaderOptions{MaxRetries: 2})
 
 	if kind == cache.CAS && c.v2mode {
-		return casblob.ExtractLogicalSize(rc)
+		sizedRc, logicalSize, err := casblob.ExtractLogicalSize(rc)
+		if err != nil {
+			// Nobody will read (or close) the object now.
+			_ = rc.Close()
+		}
+		return sizedRc, logicalSize, err
 	}
 
 	if resp.ContentLength != nil {
